@@ -79,6 +79,15 @@ theorem invA_relWait2 {s : State} (hi : InvA s) (t : Tid) (new : Nat) (n : Word)
     (by simp) (fun q => ⟨rfl, rfl, rfl⟩) ?_ (by simp)
   tinv_t hl
 
+/-- The release store of emit_cv_state (debug.c/7). -/
+theorem invA_relDbg {s : State} (hi : InvA s) (t : Tid) (new : Nat) (n : Word) (hl : (s.thr t).loc = .dWalk)
+    (hh : s.holder = some t) (hnew : new = (s.thr t).old.enc) (hn : Word.dec? new = some n) (hsp : n.spin = false) :
+    InvA ({ s with word := n, holder := none }.setThr t { s.thr t with loc := .dRet }) := by
+  have e := word_of_dec hnew hn
+  refine invA_release (t := t) hi hh hsp (by simp [e]) rfl rfl (fun u hu => by simp [hu]) (by simp [Loc.holds])
+    (by simp) (fun q => ⟨rfl, rfl, rfl⟩) ?_ (by simp)
+  tinv_t hl
+
 theorem invA_relWait {s : State} (hi : InvA s) (t : Tid) (new : Nat) (n : Word) (hl : (s.thr t).loc = .wRel)
     (hh : s.holder = some t) (hnew : new = (s.thr t).old.enc) (hn : Word.dec? new = some n) (hsp : n.spin = false) :
     InvA ({ s with word := n, holder := none, seq := s.seq + 1 }.setRec (s.thr t).r
